@@ -236,6 +236,24 @@ def main(tier):
                                                  'sequential pformat(v) - returned another text than on its own'
                                                  % (k, 'ran to its end meanwhile' if j is None else 'ran %d lines, then A ended first' % j),
                                        'results': [str(x)[:300] for x in res], 'later': later[:300], 'expected': [x[:300] for x in ref]})
+        # predicate-registered printers: after a value of the first predicate's kind, two threads print values of
+        # the second predicate's kind; one preemption at every first execution of a package line
+        pin, ppts, pn = sched.predicate_points()
+        npred = 0
+        for k in sorted(set(pin + (ppts if tier != 'quick' else ppts[::max(1, len(ppts) // 40)]))):
+            res, first, ref = sched.run_predicate_preemption(k)
+            letters = [outcome_letter(res[x], ref[x]) for x in range(2)]
+            npred += 1
+            run.count(1)
+            if any(x != 'P' for x in letters) or first != 'PK1(9)':
+                viol += 1
+                if viol <= 6:
+                    run.violation({'kind': 'predicate-preemption', 'k': k, 'outcomes': letters,
+                                   'detail': 'two predicate printers; after pformat(PK1(9)), thread A printing [PK2(1)] was preempted '
+                                             'after %d package lines while thread B printed [PK2(2)]: a thread returned another '
+                                             'text than on its own' % k,
+                                   'results': [str(x)[:200] for x in res], 'expected': ref})
+        run.coverage['predicate_preemption_schedules'] = npred
         run.coverage['config_preemption_schedules'] = ncfg
         run.coverage['double_preemption_schedules'] = ndouble
         run.coverage['double_preemption_points'] = [len(pts0), len(pts1)]
@@ -266,7 +284,7 @@ def main(tier):
             'instance of a subclass of a built-in type (bounded and random schedules over the same lines); 2-3 threads printing values that SHARE sub-objects, gated on the line events of '
             '_run_pretty (where visits start and end): every single-preemption schedule up to 70 (thorough: 140) lines '
             'and seeded random interleavings; same or different widths per thread; 2-3 threads laying out different values, '
-            '2 threads, one printing with explicit settings and one without (plus a later sequential call), the first preempted at every first execution of a package line; 2 threads printing different values with long strings under two preemptions (A stops after i lines, B after j, A ends, B ends; 360 / 3000 seeded (i, j) over 4 pairs of values - string at top level / in a list / dict / nested - two thirds at points where a package line runs for the 1st or 2nd time, one third uniform); gated on the line events of best_layout and both fitting predicates (seeded random interleavings, runs of '
+            '2 threads printing values handled by the second of two predicate printers after a value of the first kind, one preemption at every line executed inside the predicate lookup and at first executions of other package lines; 2 threads, one printing with explicit settings and one without (plus a later sequential call), the first preempted at every first execution of a package line; 2 threads printing different values with long strings under two preemptions (A stops after i lines, B after j, A ends, B ends; 360 / 3000 seeded (i, j) over 4 pairs of values - string at top level / in a list / dict / nested - two thirds at points where a package line runs for the 1st or 2nd time, one third uniform); gated on the line events of best_layout and both fitting predicates (seeded random interleavings, runs of '
             '1..120 lines); 2-3 threads printing mixed values (split strings, comments, calls, shared objects) gated on EVERY '
             'line executed inside the package (seeded random interleavings, runs of 1..2000 lines); a sweep with ONE preemption at '
             'the first execution of every distinct package line of a print of never-printed classes (fresh namedtuple, tuple '
@@ -281,6 +299,11 @@ def replay(path):
     if 'schedule' not in p:
         print(json.dumps(p, indent=1)[:3000])
         return 1
+    if p.get('kind') == 'predicate-preemption':
+        res, first, ref = sched.run_predicate_preemption(p['k'])
+        letters = [outcome_letter(res[i], ref[i]) for i in range(2)]
+        print(letters, first, [str(x)[:150] for x in res])
+        return 0 if all(x == 'P' for x in letters) and first == 'PK1(9)' else 1
     if p.get('kind') == 'config-preemption':
         res, later, ref = sched.run_config_preemption(p['k'], p['j'])
         letters = [outcome_letter(res[i], ref[i]) for i in range(2)]
